@@ -701,7 +701,13 @@ func TestC12Auth(t *testing.T) {
 // credentials follow the htpasswd file: after the file has been rewritten and
 // the refresh interval has passed, exactly the pairs in the new file are accepted
 
-func TestC12AuthFileHistory(t *testing.T) {
+func TestC12AuthFileHistory(t *testing.T) { authFileHistory(t) }
+
+// C06: the access decision for a request depends on that request and the current configuration
+// (table, credential file), not on what earlier requests presented: the same histories once more.
+func TestC06AuthDecisionsDoNotCarryOver(t *testing.T) { authFileHistory(t) }
+
+func authFileHistory(t *testing.T) {
 	dir := t.TempDir()
 	hx.Check(t, hx.Scale(60, 600), func(t *rapid.T) {
 		file := filepath.Join(dir, fmt.Sprintf("htpasswd-%d", time.Now().UnixNano()))
